@@ -1,4 +1,5 @@
-(* C02/Properties.v — property theorems (Repaired model) and refutation witnesses (Defective = today's code).
+(* C02/Properties.v — property theorems (Repaired model; Head = /repo HEAD) and refutation witnesses (Defective =
+   the tree before any fix).
    Each theorem is closed by [exact] of a lemma from Proofs.v (or vm_compute for concrete witnesses). *)
 From OV Require Import Common.Base C02.Model C02.Proofs.
 Open Scope N_scope.
